@@ -774,6 +774,16 @@ Section MergedProofs.
       destruct (nth_error_lt_some its j) as [c Hc]; [rewrite Hlen; eapply ls_lt; eauto|].
       rewrite Hc. reflexivity.
   Qed.
+
+  (* the machine itself is a black box that behaves like the cursor over M *)
+  Lemma merged_refines_from s sp : R s sp ->
+    refines_from kcmp (merged_step K V C chstep chobs pop) m_kv s M sp.
+  Proof.
+    intros HR ms. revert s sp HR. induction ms as [|m ms IH]; intros s sp HR; cbn.
+    - apply R_obs. exact HR.
+    - destruct (merged_sim s sp m HR) as (s' & ret & Hr & HR' & _).
+      unfold merged_step at 2. rewrite Hr. apply IH. exact HR'.
+  Qed.
 End MergedProofs.
 
 (* ================= the merge of the children's lists ================= *)
@@ -955,4 +965,33 @@ Proof.
     + clear -Href. induction Href as [|c0 l0 its' ls' H0 Hr IH]; intros [|j] c l Hc Hl; cbn in *; try discriminate.
       * injection Hc as <-. injection Hl as <-. exact H0.
       * eapply IH; eauto.
+Qed.
+
+Theorem merged_is_cursor (K V C : Type) (kcmp : K -> K -> comparison) (chstep : C -> move K -> C)
+  (chobs : C -> option (K * V)) (pop : list (option K) -> bool -> list nat -> option (nat * list nat))
+  (ls : list (list (K * V))) (its : list C) :
+  ord_ok kcmp -> pop_ok K kcmp pop ->
+  Forall (sorted_kv kcmp) ls -> NoDup (map fst (concat ls)) ->
+  Forall2 (fun c l => refines kcmp chstep chobs c l) its ls ->
+  refines kcmp (merged_step K V C chstep chobs pop) (m_kv K V C chobs) (m_init its) (merge_lists kcmp ls).
+Proof.
+  intros ok Hpop Hs Hnd Href.
+  apply (merged_refines_from K V C kcmp ok chstep chobs pop Hpop ls (merge_lists kcmp ls)).
+  - intros j l Hj. rewrite Forall_forall in Hs. apply Hs. eapply nth_error_In; eauto.
+  - apply (merge_sorted K V kcmp ok). exact Hnd.
+  - apply merge_in.
+  - apply (concat_keys_disjoint K V). exact Hnd.
+  - apply R_init.
+    + clear -Href. induction Href; cbn; auto.
+    + clear -Href. induction Href as [|c0 l0 its' ls' H0 Hr IH]; intros [|j] c l Hc Hl; cbn in *; try discriminate.
+      * injection Hc as <-. injection Hl as <-. exact H0.
+      * eapply IH; eauto.
+Qed.
+
+Lemma merge_length {K V} (kcmp : K -> K -> comparison) (ls : list (list (K * V))) :
+  length (merge_lists kcmp ls) = length (concat ls).
+Proof.
+  unfold merge_lists. induction (concat ls) as [|x L IH]; cbn; [reflexivity|].
+  rewrite <- IH. generalize (fold_right (insert_kv kcmp) [] L). intros l.
+  induction l as [|y l IHl]; cbn; [reflexivity|]. destruct (kcmp (fst x) (fst y)); cbn; auto.
 Qed.
